@@ -396,6 +396,53 @@ func checkC13(ctx *Ctx) *Result {
 			return ""
 		}},
 	}
+	// R13.10: the converse of R13.4 — nothing is rejected for a reason the
+	// documentation does not give. The condition that decides a rejection
+	// (the last branch taken before the error is built) is one of the
+	// documented defects.
+	r.rule("R13.10", "every rejection of ParsePattern is decided by a documented defect (no additional, undocumented rejections)", 16)
+	{
+		type cond struct {
+			key string
+			pos bool
+		}
+		var doc []cond
+		add := func(key string, pos bool) { doc = append(doc, cond{key, pos}) }
+		add(`bin:==(param:str, "*")`, true)
+		add(`bin:==(param:str, "null")`, true)
+		add(k.S+"#2", false)
+		add(`bin:==(`+k.S+`#0, "file")`, true)
+		add(k.SEP+"#1", false)
+		add("bin:<(251, len:builtin.len("+k.host(true)+"))", true)
+		add(k.isIP(true), true)
+		for _, w := range []bool{false, true} {
+			add(k.FH(w)+"#2", false)
+			add("bin:==("+k.addr(w)+"#1, nil)", false)
+			add(`bin:==(call:(net/netip.Addr).Zone(`+k.addr(w)+`#0), "")`, false)
+			add("call:(net/netip.Addr).Is4In6("+k.addr(w)+"#0)", true)
+			add("bin:==(call:(net/netip.Addr).String("+k.addr(w)+"#0), "+k.host(w)+")", false)
+			add("bin:==("+k.toASCII(w)+"#1, nil)", false)
+			add(k.colon(w)+"#1", false)
+			add(`bin:==(`+k.star(w)+`#0, "")`, false)
+			add(k.port(w)+"#2", false)
+			add(`bin:==(`+k.port(w)+`#1, "")`, false)
+		}
+		add(`bin:==(`+k.S+`#0, "https")`, true) // https with an IP host; default port 443
+		add(`bin:==(`+k.S+`#0, "http")`, true)  // default port 80
+		for _, pa := range paths {
+			if pa.End != "return" || len(pa.Rets) != 2 || pa.Rets[1].IsConst("nil") || len(pa.Atoms) == 0 {
+				continue
+			}
+			la := pa.Atoms[len(pa.Atoms)-1]
+			found := false
+			for _, d := range doc {
+				if d.key == la.T.Key() && d.pos == la.Pos {
+					found = true
+				}
+			}
+			r.check(found, "R13.10", "ParsePattern rejection decided by {"+lastAtom(pa)+"}", "", "a pattern is rejected because of "+la.String()+", which is none of the documented defects: patterns of the documented form would be refused", 1)
+		}
+	}
 	for _, g := range guards {
 		bad := ""
 		n := 0
